@@ -13,7 +13,17 @@ import (
 
 // C11 — marshaling is deterministic and depends only on content.
 
-var c11BaseNames = []string{"soft resource + included", "wrapped resource + included", "Resources(mixed)", "SoftCollection", "WrapperCollection", "errors", "identifiers + meta + links", "weird names"}
+var c11BaseNames = []string{"soft resource + included", "wrapped resource + included", "Resources(mixed)", "SoftCollection", "WrapperCollection", "errors", "identifiers + meta + links", "weird names", "wide type, long unsorted selection"}
+
+// a type with more fields than any "short list" fast path, selected in reverse order
+var c11Wide = func() TypeD {
+	d := TypeD{Name: "w"}
+	for i := 0; i < 10; i++ {
+		d.Attrs = append(d.Attrs, AttrD{fmt.Sprintf("f%d", i), kStr})
+	}
+	d.Rels = []RelD{{"r1", true, "u", ""}, {"r2", false, "u", ""}}
+	return d
+}()
 
 // c11Params are the order-irrelevant parts of a base document.
 type c11Params struct {
@@ -30,10 +40,15 @@ func c11Default() c11Params {
 func c11Base(i int, p c11Params) *DocCase {
 	c := &DocCase{}
 	softT := i != 1 && i != 4
-	c.Schema = BuildSchema([]TypeD{docT, docU, docQ}, []bool{softT, i%2 == 0, true})
+	c.Schema = BuildSchema([]TypeD{docT, docU, docQ, c11Wide}, []bool{softT, i%2 == 0, true, true})
 	mkT := func(soft bool, id string, v int) j.Resource {
 		r := docRes(docT, soft, id, v)
-		r.Set("many", append([]string{}, p.many...))
+		many := append([]string{}, p.many...)
+		if i == 0 || i == 4 {
+			// a to-many list may name the same resource more than once
+			many = append(many, "u1", "u1")
+		}
+		r.Set("many", many)
 		return r
 	}
 	// included: two types whose order by type name ("t" < "u") disagrees with the
@@ -87,12 +102,23 @@ func c11Base(i int, p c11Params) *DocCase {
 		doc.Meta = j.Meta{"z": 1.0, "a": map[string]any{"k2": []any{1.0, "x"}, "k1": nil}, "m": "v"}
 		doc.Links = map[string]j.Link{"next": {HRef: "/n"}, "prev": {HRef: "/p", Meta: map[string]any{"b": 1.0, "a": 2.0}}, "first": {HRef: "/f"}}
 		frag = []string{"t", "t1", "relationships", "many"}
+	case 8:
+		r := c11Wide.NewRes(true)
+		r.Set("id", "w1")
+		for k := 0; k < 10; k++ {
+			r.Set(fmt.Sprintf("f%d", k), fmt.Sprint("v", k))
+		}
+		r.Set("r2", []string{"b", "a"})
+		doc.Data = r
+		doc.RelData["w"] = []string{"r2", "r1"}
+		frag = []string{"w", "w1"}
 	case 7:
 		doc.Data = docRes(docQ, true, weirdID, 0)
 		doc.Included = []j.Resource{docRes(docQ, true, "w2", 1)}
 		frag = []string{docQ.Name, weirdID}
 	}
-	fields := map[string][]string{"t": append([]string{}, p.selT...), "u": {"back", "b"}, docQ.Name: {"s"}}
+	fields := map[string][]string{"t": append([]string{}, p.selT...), "u": {"back", "b"}, docQ.Name: {"s"},
+		"w": {"r2", "r1", "f9", "f8", "f7", "f6", "f5", "f4", "f3", "f2", "f1", "f0"}}
 	c.Fields = fields
 	c.Doc = doc
 	c.URL = &j.URL{Fragments: frag, ResType: frag[0], IsCol: len(frag) == 1,
@@ -296,7 +322,7 @@ func init() {
 	Register(&Prop{
 		Post: c11Conformance,
 		ID: "C11",
-		Rule: "Engine A over 8 base (document, URL) pairs (soft / wrapped single resource with 3 included of mixed implementations, Resources / SoftCollection / WrapperCollection, errors with links/source/meta maps, identifiers + nested meta + links map, names needing escapes): (i) map schedules: the iteration order of EVERY instrumented map-range loop instance met while marshaling (all n! orders for n <= 4 keys, reversal/rotations/adjacent swaps above) is an environment choice; all executions with <= 1 (thorough 2) deviating loop instances, plus the uniform reversed and rotated schedules; (ii) all orders of a 3-id to-many list, of a 4-name field selection, of the relationship-data list and of a 3-element included list with distinct ids; (iii) three marshals in a row on the same objects. Oracle: byte-identical output everywhere; everything later readable from the resources and the URL (modulo the three exempted orders) unchanged. Non-trivial = execution with at least one deviating loop / a non-default permutation",
+		Rule: "Engine A over 9 base (document, URL) pairs (soft / wrapped single resource with 3 included of mixed implementations, Resources / SoftCollection / WrapperCollection, errors with links/source/meta maps, identifiers + nested meta + links map, names needing escapes, a 12-field type with a long selection given in reverse order): (i) map schedules: the iteration order of EVERY instrumented map-range loop instance met while marshaling (all n! orders for n <= 4 keys, reversal/rotations/adjacent swaps above) is an environment choice; all executions with <= 1 (thorough 2) deviating loop instances, plus the uniform reversed and rotated schedules; (ii) all orders of a 3-id to-many list, of a 4-name field selection, of the relationship-data list and of a 3-element included list with distinct ids; (iii) three marshals in a row on the same objects. Oracle: byte-identical output everywhere; everything later readable from the resources and the URL (modulo the three exempted orders) unchanged. Non-trivial = execution with at least one deviating loop / a non-default permutation",
 		Assumptions: []string{"the repository suite passing under the instrumented build (sorted, reversed, rotated schedules) binds the rewritten loops to the original ones"},
 		Harnesses: []Harness{{Name: "C11/marshal", Body: c11Body, Dev: func() int {
 			if Thorough() {
